@@ -367,6 +367,29 @@ def _bitvec(t, path, w, depth):
                     return bitvec(a, path, depth + 1)[:bits]
             if op.startswith("Mul") and (av == 0 or bw == 0):
                 return [0] * bits
+            if op.startswith("Mul"):
+                # x * 2^k = a left shift
+                for cst, other in ((av, b), (bw, a)) if False else ((av, b), (bw, a)):
+                    if cst is not None and cst > 0 and cst & (cst - 1) == 0:
+                        k_ = cst.bit_length() - 1
+                        ov = bitvec(other, path, depth + 1)
+                        ov = ov + [0] * (bits - len(ov))
+                        return ([0] * k_ + ov)[:bits]
+            return [None] * bits
+        if op in ("Rem", "Div") and not path.tags.get(("signed", t), False):
+            # unsigned x % 2^k = the low k bits, x / 2^k = a right shift
+            cv = bv_value(bitvec(b, path, depth + 1))
+            if cv is not None and cv > 0 and cv & (cv - 1) == 0:
+                k_ = cv.bit_length() - 1
+                av = bitvec(a, path, depth + 1)
+                av = av + [0] * (bits - len(av))
+                if op == "Rem":
+                    return (av[:k_] + [0] * bits)[:bits]
+                return (av[k_:] + [0] * bits)[:bits]
+            av = bv_value(bitvec(a, path, depth + 1))
+            if av is not None and cv:
+                v = (av % cv) if op == "Rem" else (av // cv)
+                return [(v >> i) & 1 for i in range(bits)]
             return [None] * bits
         if op in ("AddOvf", "SubOvf", "MulOvf"):
             av = bv_range(bitvec(a, path, depth + 1))
@@ -543,6 +566,8 @@ class Interp:
         self._loops = {}
         self.cmp_oracle = None
         self.widen_at = 2
+        self.intercept_fn_calls = False  # opt-in: offer calls through the Fn traits to the intercept first
+        self.backedge_sink = None  # opt-in: (frame, header, path) of every arrival dropped after the generic iteration
         self.concrete_ranges = False  # opt-in: exact unrolling of `for i in a..b` with constant bounds
 
     # ------------------------------------------------------------ loops (A2)
@@ -928,6 +953,12 @@ class Interp:
             return a
         if op == "Add" and is_int(a) and a[1] == 0:
             return b
+        if op in ("Mul", "MulUnchecked"):
+            for x, y in ((a, b), (b, a)):
+                if is_int(x) and x[1] == 0:
+                    return INT(0, bits)
+                if is_int(x) and x[1] == 1 and width_of(y) == bits:
+                    return y
         if op in ("AddOvf", "SubOvf") and is_int(b) and b[1] == 0:
             return INT(0, 8)
         if is_int(a) and not is_int(b) and op in ("Add", "Mul", "BitAnd", "BitOr", "BitXor", "Eq", "Ne"):
@@ -1059,12 +1090,17 @@ class Interp:
                         pass  # still unrolling precisely
                     elif n == self.widen_at:
                         # widen: forget everything the loop body assigns, run one generic iteration
+                        tops = {}
                         for l in lp["assigned"]:
-                            path.store[("L", frame.fid, l)] = TOP("loop")
+                            tops[l] = TOP("loop")
+                            path.store[("L", frame.fid, l)] = tops[l]
+                        path.tags[("widened", frame.fid, bb)] = (tops, len(path.conds))
                         path.events.append(("loop_widened", body["path"], bb))
                         # facts about forgotten values must go as well
                         path.facts = {k: v for k, v in path.facts.items() if not _mentions_top(k)}
                     else:
+                        if self.backedge_sink is not None:
+                            self.backedge_sink.append((frame, bb, path))
                         return  # covered by the widened iteration
                 elif n > self.loop_bound + 1 and not any(bb in l_["nodes"] for l_ in loops.values()):
                     yield Outcome("cut", None, path, site=F.site_str(body, blocks[bb]["term"]["sp"]),
@@ -1195,6 +1231,10 @@ class Interp:
             path.events.append(("indirect_call", fnv, tuple(args), site, body["path"]))
             return self._opaque(path, frame, t, "indirect", args, depth, havoc=True)
         if f.get("def") in self.FN_TRAIT_CALLS:
+            if self.intercept_fn_calls and self.intercept is not None:
+                r = self.intercept(self, path, frame, t, name, args)
+                if r is not None:
+                    return self._multi(path, frame, t, r, depth)
             r = self.closure_call(path, frame, t, name, args, depth)
             if r is not None:
                 return r
@@ -1423,6 +1463,21 @@ class Interp:
                 path.events.append(("checked", op, a, b, "some"))
                 p2.events.append(("checked", op, a, b, "none"))
                 return self._multi(path, frame, t, [(SOME(val), path), (NONE, p2)], depth)
+            if meth in ("count_ones", "count_zeros", "leading_zeros", "trailing_zeros", "swap_bytes", "reverse_bits") and b is None:
+                if is_int(a):
+                    v = a[1] & mask(bits)
+                    bs = format(v, "0%db" % bits)
+                    r = {"count_ones": bs.count("1"), "count_zeros": bs.count("0"),
+                         "leading_zeros": len(bs) - len(bs.lstrip("0")), "trailing_zeros": len(bs) - len(bs.rstrip("0")),
+                         "swap_bytes": int.from_bytes(v.to_bytes(bits // 8, "little"), "big"),
+                         "reverse_bits": int(bs[::-1], 2)}[meth]
+                    return self._multi(path, frame, t, [(INT(r, bits if meth in ("swap_bytes", "reverse_bits") else 32), path)], depth)
+                return self._multi(path, frame, t, [(W(("ret", meth, (a,), 0), bits if meth in ("swap_bytes", "reverse_bits") else 32), path)], depth)
+            if meth in ("rotate_left", "rotate_right") and is_int(a) and b is not None and is_int(b):
+                v, n_ = a[1] & mask(bits), b[1] % bits
+                if meth == "rotate_right":
+                    n_ = (bits - n_) % bits
+                return self._multi(path, frame, t, [(INT(((v << n_) | (v >> (bits - n_))) & mask(bits) if n_ else v, bits), path)], depth)
             if meth in ("saturating_add", "saturating_sub"):
                 op = "Add" if meth.endswith("add") else "Sub"
                 return self._multi(path, frame, t, [(("ret", meth, (a, b), 0), path)], depth)
@@ -1449,6 +1504,10 @@ class Interp:
             a, b = args[0], args[1]
             meth = "min" if name.endswith("min") else "max"
             return self._multi(path, frame, t, [(self.minmax(path, meth, a, b, width_of(a), False), path)], depth)
+        if name.endswith("::is_empty") and len(args) == 1 and ("Vec" in name or "slice" in name or "<impl [T]>" in name):
+            v = args[0]
+            inner = self.read_loc(path, v[1]) if v[0] == "ref" else v
+            return self._multi(path, frame, t, [(self.binop(path, "Eq", W(LEN(inner), 64), INT(0, 64), 8), path)], depth)
         if name.endswith("::len") and len(args) == 1 and ("Vec" in name or "slice" in name or "<impl [T]>" in name):
             v = args[0]
             if v[0] == "ref":
@@ -1478,6 +1537,19 @@ class Interp:
                 b = self._deref_all(path, args[1])
                 r = self.binop(path, "Eq" if name.endswith("::eq") else "Ne", a, b, 8)
                 return self._multi(path, frame, t, [(r, path)], depth)
+        # --- Option<&T>::copied / cloned: the payload reference is read through
+        if name.startswith(("std::option::Option::<&T>::", "std::option::Option::<&mut T>::")) and \
+                name.rsplit("::", 1)[1] in ("copied", "cloned") and len(args) == 1:
+            v = args[0]
+            if v[0] == "ref":
+                v = self.read_loc(path, v[1])
+            outs = []
+            for vi, payload, p in self.split_result(path, v, OPTION):
+                if vi == 1:
+                    outs.append((SOME(self._deref_all(p, payload, 1) if payload[0] == "ref" else ("deref", payload)), p))
+                else:
+                    outs.append((NONE, p))
+            return self._multi(path, frame, t, outs, depth)
         # --- Option / Result
         if name.startswith(("std::option::Option::<T>::", "std::result::Result::<T, E>::")):
             meth = name.rsplit("::", 1)[1]
